@@ -406,4 +406,147 @@ theorem remByWord_spec (W rhs : Nat) (ws : List Nat) (h : IsWords W ws) (hne : w
     simp only [hmod, normNew_ok W _ l2, bind, Except.bind, e, div2by1_ok W _ _ hpre, pure, Except.pure]
     rw [rem_unshift]
 
+-- ------------------------------------------------------------------ double-word divisor
+
+theorem split_last2 (l : List Nat) (h : 2 ≤ l.length) :
+    ∃ lo a b, l.drop (l.length - 2) = [a, b] ∧ l.take (l.length - 2) = lo ∧ l = lo ++ [a, b] := by
+  have hd : (l.drop (l.length - 2)).length = 2 := by simp only [List.length_drop]; omega
+  have hs := (List.take_append_drop (l.length - 2) l).symm
+  generalize l.drop (l.length - 2) = d at hd hs
+  rcases d with _ | ⟨a, _ | ⟨b, _ | ⟨c, t⟩⟩⟩
+  · simp at hd
+  · simp at hd
+  · exact ⟨_, a, b, rfl, rfl, hs⟩
+  · simp at hd
+
+theorem div4by2Loop_spec (W d : Nat) (hd : 0 < d) (hdW : d ≤ 2 ^ (2 * W)) (n : Nat) (lo : List Nat)
+    (rem : Nat) (hl : lo.length = 2 * n) (h : IsWords W lo) (hr : rem < d) :
+    ∃ qs r, div4by2Loop W d lo rem = .ok (qs, r) ∧
+      val W qs * d + r = val W lo + 2 ^ (W * lo.length) * rem ∧ r < d ∧
+      qs.length = lo.length ∧ IsWords W qs := by
+  induction n generalizing lo with
+  | zero =>
+    have : lo = [] := List.eq_nil_of_length_eq_zero (by omega)
+    subst this
+    exact ⟨[], rem, by simp [div4by2Loop, IsWords.nil, hr]⟩
+  | succ n ih =>
+    rcases lo with _ | ⟨a, _ | ⟨b, rest⟩⟩
+    · simp at hl
+    · simp at hl; omega
+    · have ha := h.head
+      have hb := h.tail.head
+      have hp : 0 < 2 ^ W := Nat.two_pow_pos W
+      obtain ⟨qs, r, e, hv, hrd, hlq, hq⟩ := ih rest (by simp at hl; omega) h.tail.tail
+      have hsq := two_mul_W W
+      have hdm := Nat.div_add_mod (a + 2 ^ W * b + 2 ^ (2 * W) * r) d
+      have hqlt : (a + 2 ^ W * b + 2 ^ (2 * W) * r) / d < 2 ^ (2 * W) := by
+        rw [Nat.div_lt_iff_lt_mul hd]
+        have : a + 2 ^ W * b < 2 ^ (2 * W) := by rw [hsq]; nlinarith
+        calc a + 2 ^ W * b + 2 ^ (2 * W) * r < 2 ^ (2 * W) + 2 ^ (2 * W) * r := by omega
+          _ = 2 ^ (2 * W) * (r + 1) := by ring
+          _ ≤ 2 ^ (2 * W) * d := Nat.mul_le_mul_left _ hrd
+      refine ⟨(a + 2 ^ W * b + 2 ^ (2 * W) * r) / d % 2 ^ W :: (a + 2 ^ W * b + 2 ^ (2 * W) * r) / d / 2 ^ W :: qs,
+        (a + 2 ^ W * b + 2 ^ (2 * W) * r) % d, ?_, ?_, Nat.mod_lt _ hd, ?_, ?_⟩
+      · simp only [div4by2Loop, e, bind, Except.bind, div4by2_ok W d _ _ hrd, pure, Except.pure]
+      · simp only [val_cons, List.length_cons]
+        have hP : 2 ^ (W * (rest.length + 1 + 1)) = 2 ^ (W * rest.length) * 2 ^ W * 2 ^ W := by
+          rw [← Nat.pow_add, ← Nat.pow_add]; congr 1 <;> ring
+        rw [hP]
+        have hqq := Nat.div_add_mod ((a + 2 ^ W * b + 2 ^ (2 * W) * r) / d) (2 ^ W)
+        generalize (a + 2 ^ W * b + 2 ^ (2 * W) * r) / d = q at *
+        generalize (a + 2 ^ W * b + 2 ^ (2 * W) * r) % d = r' at *
+        have hqd : (2 ^ W * (q / 2 ^ W) + q % 2 ^ W) * d = q * d := by rw [hqq]
+        generalize q / 2 ^ W = q1 at *
+        generalize q % 2 ^ W = q0 at *
+        have e' : 2 ^ W * 2 ^ W * (val W qs * d + r)
+            = 2 ^ W * 2 ^ W * (val W rest + 2 ^ (W * rest.length) * rem) := by rw [hv]
+        rw [hsq] at hdm
+        generalize 2 ^ (W * rest.length) = P at *
+        generalize 2 ^ W = B at *
+        nlinarith [e', hdm, hqd]
+      · simp [hlq]
+      · refine IsWords.cons (Nat.mod_lt _ hp) (IsWords.cons ?_ hq)
+        rw [Nat.div_lt_iff_lt_mul hp, ← hsq]; exact hqlt
+
+theorem val_append_two (W : Nat) (l : List Nat) (a b : Nat) :
+    val W (l ++ [a, b]) = val W l + 2 ^ (W * l.length) * (a + 2 ^ W * b) := by
+  rw [val_append]; simp
+
+theorem fastDivByDwordCore_spec (W d : Nat) (hd : 0 < d) (hdW : d ≤ 2 ^ (2 * W)) (ws' : List Nat)
+    (hi : Nat) (h : IsWords W ws') (hlen : 2 ≤ ws'.length) (hhi : 2 ^ W * (hi + 1) ≤ d) :
+    ∃ qs r, fastDivByDwordCore W d ws' hi = .ok (qs, r) ∧
+      val W qs * d + r = val W ws' + 2 ^ (W * ws'.length) * hi ∧ r < d ∧
+      qs.length = ws'.length ∧ IsWords W qs := by
+  have hp : 0 < 2 ^ W := Nat.two_pow_pos W
+  obtain ⟨lo, topLo, topHi, hdrop, htake, hsplit⟩ := split_last2 ws' hlen
+  have hlo : IsWords W lo := by rw [← htake]; exact h.take _
+  have htl : topLo < 2 ^ W := h topLo (by rw [hsplit]; simp)
+  have hth : topHi < 2 ^ W := h topHi (by rw [hsplit]; simp)
+  have hahi : topHi + 2 ^ W * hi < d := by
+    calc topHi + 2 ^ W * hi < 2 ^ W + 2 ^ W * hi := by omega
+      _ = 2 ^ W * (hi + 1) := by ring
+      _ ≤ d := hhi
+  have hq3 := Nat.div_add_mod (topLo + 2 ^ W * (topHi + 2 ^ W * hi)) d
+  have hr3 : (topLo + 2 ^ W * (topHi + 2 ^ W * hi)) % d < d := Nat.mod_lt _ hd
+  have hqw : (topLo + 2 ^ W * (topHi + 2 ^ W * hi)) / d < 2 ^ W := by
+    rw [Nat.div_lt_iff_lt_mul hd]
+    calc topLo + 2 ^ W * (topHi + 2 ^ W * hi) < 2 ^ W + 2 ^ W * (topHi + 2 ^ W * hi) := by omega
+      _ = 2 ^ W * (topHi + 2 ^ W * hi + 1) := by ring
+      _ ≤ 2 ^ W * d := Nat.mul_le_mul_left _ hahi
+  have hlen' : ws'.length = lo.length + 2 := by rw [hsplit]; simp
+  have hvs : val W ws' = val W lo + 2 ^ (W * lo.length) * (topLo + 2 ^ W * topHi) := by
+    rw [hsplit]; exact val_append_two W lo topLo topHi
+  have hP : 2 ^ (W * ws'.length) = 2 ^ (W * lo.length) * 2 ^ W * 2 ^ W := by
+    rw [hlen', ← Nat.pow_add, ← Nat.pow_add]; congr 1 <;> ring
+  have hwq : IsWords W [(topLo + 2 ^ W * (topHi + 2 ^ W * hi)) / d, 0] :=
+    IsWords.cons hqw (IsWords.cons hp (IsWords.nil W))
+  by_cases hpar : lo.length % 2 = 0
+  · obtain ⟨qs, r, e, hv, hrd, hlq, hq⟩ :=
+      div4by2Loop_spec W d hd hdW (lo.length / 2) lo _ (by omega) hlo hr3
+    refine ⟨qs ++ [_, 0], r, ?_, ?_, hrd, ?_, IsWords.append hq hwq⟩
+    · simp only [fastDivByDwordCore, hdrop, htake, bind, Except.bind, div3by2_ok W d _ _ hahi, hpar,
+        if_true, e, pure, Except.pure]
+    · rw [val_append_two, hvs, hP, hlq]
+      generalize (topLo + 2 ^ W * (topHi + 2 ^ W * hi)) / d = q at *
+      generalize (topLo + 2 ^ W * (topHi + 2 ^ W * hi)) % d = r3 at *
+      have e3 : 2 ^ (W * lo.length) * (d * q + r3)
+          = 2 ^ (W * lo.length) * (topLo + 2 ^ W * (topHi + 2 ^ W * hi)) := by rw [hq3]
+      generalize 2 ^ (W * lo.length) = P at *
+      generalize 2 ^ W = B at *
+      linarith [e3, hv]
+    · simp [hlq, hlen']
+  · rcases lo with _ | ⟨x, pairs⟩
+    · simp at hpar
+    · have hx := hlo.head
+      obtain ⟨qs, r, e, hv, hrd, hlq, hq⟩ :=
+        div4by2Loop_spec W d hd hdW (pairs.length / 2) pairs _ (by simp at hpar; omega) hlo.tail hr3
+      have hq0 := Nat.div_add_mod (x + 2 ^ W * r) d
+      have hq0w : (x + 2 ^ W * r) / d < 2 ^ W := by
+        rw [Nat.div_lt_iff_lt_mul hd]
+        calc x + 2 ^ W * r < 2 ^ W + 2 ^ W * r := by omega
+          _ = 2 ^ W * (r + 1) := by ring
+          _ ≤ 2 ^ W * d := Nat.mul_le_mul_left _ hrd
+      refine ⟨(x + 2 ^ W * r) / d :: qs ++ [_, 0], (x + 2 ^ W * r) % d, ?_, ?_, Nat.mod_lt _ hd, ?_,
+        IsWords.cons hq0w (IsWords.append hq hwq)⟩
+      · simp only [fastDivByDwordCore, hdrop, htake, bind, Except.bind, div3by2_ok W d _ _ hahi, hpar,
+          if_false, e, div3by2_ok W d _ _ hrd, pure, Except.pure, List.cons_append]
+      · simp only [List.cons_append, val_cons]
+        rw [val_append_two, hvs, hP, hlq]
+        simp only [val_cons, List.length_cons]
+        have hPP : 2 ^ (W * (pairs.length + 1)) = 2 ^ (W * pairs.length) * 2 ^ W := by
+          rw [← Nat.pow_add]; congr 1
+        rw [hPP]
+        generalize (topLo + 2 ^ W * (topHi + 2 ^ W * hi)) / d = q at *
+        generalize (topLo + 2 ^ W * (topHi + 2 ^ W * hi)) % d = r3 at *
+        generalize (x + 2 ^ W * r) / d = q0 at *
+        generalize (x + 2 ^ W * r) % d = r0 at *
+        have e3 : 2 ^ (W * pairs.length) * 2 ^ W * (d * q + r3)
+            = 2 ^ (W * pairs.length) * 2 ^ W * (topLo + 2 ^ W * (topHi + 2 ^ W * hi)) := by rw [hq3]
+        have e4 : 2 ^ W * (val W qs * d + r) = 2 ^ W * (val W pairs + 2 ^ (W * pairs.length) * r3) := by
+          rw [hv]
+        generalize 2 ^ (W * pairs.length) = P at *
+        generalize 2 ^ W = B at *
+        linarith [e3, e4, hq0]
+      · simp [hlq, hlen']
+
 end Dashu.Model.Div
